@@ -8,12 +8,24 @@ What is FALSE on the current tree and kept visible as `def … : Prop` with its 
   source has no such profile (finding, replayed by the harness);
 * `ImportIntoLogicallyEmptySucceeds` — a target profile holding only *expired* rows passes the emptiness test, but a
   source record under the identity of such a row makes the whole copy fail with Duplicate (finding D8 of C17 reaching C18).
+Decided by a flag read from the source (`migrateAtomic` = `Generated.Flags.migrateSingleTransaction`), in the style of
+`blank_raw_refused_everywhere_current` of C08:
+* `MigrateAllOrNothingBy g`, `WrongKeyLeavesWalletIntactBy g` — PROVED for the single-transaction variant (`g = true`: the
+  tree since the repair of defect D41, commit 25cbe17), REFUTED with a witness for the variant without it (`g = false`: D41,
+  found by this check — `migrate` committed `pre_upgrade` before it looked at the wallet key and ran the items in autocommit
+  mode, so any failure — wrong key or method, damaged metadata or cell, a fault, a SIGKILL — left a file that neither
+  migrates, `half_migrated_is_stuck`, nor opens); the verdict on the tree at hand: `migrate_all_or_nothing_status`.
+Outside the property's domain (C18 speaks about wallets in the Indy format, not about damaged ones) and stated only as
+facts about the model, which follows the code: `short_salt_panics_iff`, `short_cell_classified`,
+`decrypt_merged_panics_iff_short` (`s[..16]`, `split_at(12)`); the harness counts these as observations, the all-or-nothing
+part is judged for damaged wallets too.
 The whole-store statement `copy_store_all_profiles` (names, default profile and every profile's content at the end
 of the `copy_to` loop) is proved from the loop invariant of the target (`Lemmas.TargetInv`: key cache coherent with the
 `profiles` table, unique names and ids, FK, no expiry), in the general form with the dangling default profile stated
 explicitly (`copy_store_all_profiles_gen`) and in the exact form under "the default profile is one of the profiles".
 -/
 import AskarModel.Lemmas.Copy
+import AskarModel.Lemmas.IndyMigration
 import AskarModel.Lemmas.Wql
 
 namespace Askar.Copy
@@ -208,7 +220,259 @@ theorem decrypt_merged_panics_iff_short (A : Aead) (key v : Bytes) :
   unfold decryptMerged
   split
   · simp [*]
-  · split <;> simp [*]
+  · split
+    · simp [*]
+    · split <;> simp [*]
+
+/-! ### Failure semantics of `migrate` on the wallet file (`migrateFile`; `g` = the whole run is one transaction) -/
+
+/-- "A failed migration leaves the file exactly as it was" for the variant `g` of `migrate`, for every AEAD, decoder,
+    key primitives, injected fault, arguments and file. -/
+def MigrateAllOrNothingBy (g : Bool) : Prop :=
+  ∀ (A : Aead) (utf8dec : Bytes → Option String) (P : KeyPrims) (fault : Option Nat) (a : Args) (f f' : File) (e : Err),
+    migrateFile g A utf8dec P fault a f = (f', .error e) → f' = f
+
+/-- … and for the CURRENT tree (`migrateCurrent` follows `migrateAtomic`). -/
+def MigrateAllOrNothing : Prop :=
+  ∀ (A : Aead) (utf8dec : Bytes → Option String) (P : KeyPrims) (fault : Option Nat) (a : Args) (f f' : File) (e : Err),
+    migrateCurrent A utf8dec P fault a f = (f', .error e) → f' = f
+
+/-- **migrate_all_or_nothing**: when the run is one transaction (no `COMMIT` at the end of `pre_upgrade`, no `BEGIN` at
+    the start of `finish_upgrade`), every failure — invalid method, already migrated, `fetch_indy_key` (wrong key,
+    wrong method, bad metadata, even the `s[..16]` panic), an undecryptable or too short cell, a Duplicate, a backend
+    fault at any row deletion — leaves the file as it was. -/
+theorem migrate_all_or_nothing : MigrateAllOrNothingBy true :=
+  fun A u P fault a f f' e h => Lemmas.migrate_all_or_nothing_true A u P fault a f f' e h
+
+/-- Hence it holds on the tree at hand whenever the source is the single-transaction variant (it is, since 25cbe17). -/
+theorem migrate_all_or_nothing_current (hg : migrateAtomic = true) : MigrateAllOrNothing := by
+  intro A u P fault a f f' e h
+  unfold migrateCurrent at h; rw [hg] at h
+  exact migrate_all_or_nothing A u P fault a f f' e h
+
+/-- Without the single transaction it is FALSE (defect D41, found by this check, repaired in 25cbe17): `pre_upgrade`
+    committed before the wallet key was looked at.  Witness: the empty wallet whose `metadata` table has no row, method "RAW" — the run fails (Backend) and the file has
+    the Askar tables next to `metadata`. -/
+theorem migrate_not_all_or_nothing_without_single_transaction : ¬ MigrateAllOrNothingBy false := by
+  intro h
+  have hk : Kdf.parse "RAW" = some .raw := by decide
+  have := h toyAead (fun _ => none) ⟨fun _ => none, fun _ _ _ => [], fun _ => none⟩ none ⟨"RAW", "", "w", 1⟩ {}
+    { upgraded := true } .backend
+    (by rw [Lemmas.key_failure false _ _ _ none ⟨"RAW", "", "w", 1⟩ {} .raw .backend hk rfl rfl rfl]; rfl)
+  cases this
+
+/-- Either way the verdict on the tree at hand is decided by the variant read from the source. -/
+theorem migrate_all_or_nothing_status :
+    (migrateAtomic = true ∧ MigrateAllOrNothing) ∨ (migrateAtomic = false ∧ ¬ MigrateAllOrNothing) := by
+  cases hg : migrateAtomic with
+  | true => exact Or.inl ⟨rfl, migrate_all_or_nothing_current hg⟩
+  | false =>
+    refine Or.inr ⟨rfl, fun h => migrate_not_all_or_nothing_without_single_transaction ?_⟩
+    intro A u P fault a f f' e hm
+    have := h A u P fault a f f' e
+    unfold migrateCurrent at this; rw [hg] at this; exact this hm
+
+/-- What does hold for BOTH variants when a run fails: it is refused before anything is written (invalid method name:
+    Input; already migrated or half migrated: Backend), or it failed after `pre_upgrade` — then the variant without the single transaction leaves
+    a file that still has `metadata` with its value, whose pending rows are a suffix of the wallet's (no unmigrated row
+    is lost), and the error is that of `fetch_indy_key` or of `update_items`. -/
+theorem migrate_failure_partial (g : Bool) (A : Aead) (utf8dec : Bytes → Option String) (P : KeyPrims)
+    (fault : Option Nat) (a : Args) (f f' : File) (e : Err) (h : migrateFile g A utf8dec P fault a f = (f', .error e)) :
+    f' = f ∨ (g = false ∧ f.hasMeta = true ∧ f.upgraded = false ∧ f'.hasMeta = true ∧ f'.upgraded = true ∧
+              f'.mval = f.mval ∧ f'.pending <:+ f.pending) := by
+  rcases Lemmas.migrateFile_cases g A utf8dec P fault a f with ⟨e', h1, _⟩ | ⟨kdf, cur, e', _, hm, hu, h2, c1, c2, c3, c4, _⟩ | ⟨_, _, _, _, _, _, _, _, h3⟩
+  · rw [h1] at h; cases h; exact .inl rfl
+  · rw [h2] at h
+    cases g with
+    | true => simp only [if_true] at h; cases h; exact .inl rfl
+    | false =>
+      simp only [Bool.false_eq_true, if_false] at h
+      cases h
+      exact .inr ⟨rfl, hm, hu, c1, c2, c3, c4⟩
+  · rw [h3] at h; cases h
+
+/-- A successful run (either variant, any fault position not reached): the file was an un-upgraded wallet, it is now a
+    complete Askar store (no `metadata`, no pending row, `version` written) and its tables are what `migrateRows`
+    yields — so `migrate_rows_exact` speaks about it. -/
+theorem migrate_success_complete (g : Bool) (A : Aead) (utf8dec : Bytes → Option String) (P : KeyPrims)
+    (fault : Option Nat) (a : Args) (f f' : File) (h : migrateFile g A utf8dec P fault a f = (f', .ok ())) :
+    f.hasMeta = true ∧ f.upgraded = false ∧ f'.isAskar ∧
+    ∃ kdf keys, Kdf.parse a.kdf = some kdf ∧ fetchIndyKey A P kdf a.walletKey f.mval = .ok keys ∧
+      migrateRows A utf8dec keys a.pkey f.pending { profiles := [⟨1, a.walletName, a.pkey⟩] } = .ok f'.db :=
+  Lemmas.migrate_ok_complete g A utf8dec P fault a f f' h
+
+/-- Interrupted run (a fault — or the death of the process — at the deletion of any row) in the single-transaction
+    variant: the file is the untouched wallet or a complete Askar store, never a mixture. -/
+theorem interrupted_migration_never_mixed (A : Aead) (utf8dec : Bytes → Option String) (P : KeyPrims)
+    (fault : Option Nat) (a : Args) (f : File) (hf : ¬ f.isMixed) :
+    ¬ (migrateFile true A utf8dec P fault a f).1.isMixed := by
+  generalize hr : migrateFile true A utf8dec P fault a f = r
+  obtain ⟨f', res⟩ := r
+  cases res with
+  | error e => rw [migrate_all_or_nothing A utf8dec P fault a f f' e hr]; exact hf
+  | ok v =>
+    cases v
+    have := (migrate_success_complete true A utf8dec P fault a f f' hr).2.2.1
+    intro hmix
+    have h1 : f'.hasMeta = true := hmix.1
+    rw [this.1] at h1
+    cases h1
+
+/-- … whereas the variant without the single transaction (before 25cbe17) does produce the mixture (the witness of
+    `migrate_not_all_or_nothing_without_single_transaction`), and that file is stuck: see `half_migrated_is_stuck`. -/
+theorem interrupted_migration_mixed_current :
+    ∃ (f : File) (a : Args), ¬ f.isMixed ∧
+      (migrateFile false toyAead (fun _ => none) ⟨fun _ => none, fun _ _ _ => [], fun _ => none⟩ none a f).1.isMixed := by
+  have hk : Kdf.parse "RAW" = some .raw := by decide
+  refine ⟨{}, ⟨"RAW", "", "w", 1⟩, by simp [File.isMixed], ?_⟩
+  rw [Lemmas.key_failure false _ _ _ none ⟨"RAW", "", "w", 1⟩ {} .raw .backend hk rfl rfl rfl]
+  simp [File.isMixed]
+
+/-- **wrong_key_refused_wallet_intact** (single-transaction variant): a wallet key or method under which the key
+    record does not authenticate — the master key is derivable (`masterKey`), the AEAD says no — is refused with an
+    Input error and the wallet file is exactly as before, for every wallet content. -/
+theorem wrong_key_refused_wallet_intact (A : Aead) (utf8dec : Bytes → Option String) (P : KeyPrims) (fault : Option Nat)
+    (a : Args) (f : File) (kdf : Kdf) (keysEnc : Bytes) (salt : Option Bytes) (master : Bytes)
+    (hk : Kdf.parse a.kdf = some kdf) (hm : f.hasMeta = true) (hu : f.upgraded = false)
+    (hv : f.mval = .json keysEnc salt) (hs : ∀ s, salt = some s → saltLen ≤ s.length)
+    (hmaster : masterKey P kdf a.walletKey (salt.map (·.take saltLen)) = .ok master)
+    (hdec : A.dec master (keysEnc.take nonceLen) (keysEnc.drop nonceLen) = none) :
+    migrateFile true A utf8dec P fault a f = (f, .error .input) := by
+  have := Lemmas.key_failure true A utf8dec P fault a f kdf .input hk hm hu
+    (by rw [hv]; exact Lemmas.fetchIndyKey_wrong_key A P kdf a.walletKey keysEnc salt master hs hmaster hdec)
+  simpa using this
+
+/-- The same for every failure of `fetch_indy_key`, with its classification: Backend iff the `metadata` table has no
+    row, a PANIC iff the stored salt is shorter than 16 bytes (`s[..16]`, whatever the method), Input otherwise (no
+    salt for an Argon2i method, raw key not base58 / not 32 bytes / empty, key record shorter than a nonce, not
+    authentic, not msgpack). -/
+theorem key_failure_refused_wallet_intact (A : Aead) (utf8dec : Bytes → Option String) (P : KeyPrims) (fault : Option Nat)
+    (a : Args) (f : File) (kdf : Kdf) (e : Err)
+    (hk : Kdf.parse a.kdf = some kdf) (hm : f.hasMeta = true) (hu : f.upgraded = false)
+    (hf : fetchIndyKey A P kdf a.walletKey f.mval = .error e) :
+    migrateFile true A utf8dec P fault a f = (f, .error e) ∧
+    ((e = .backend ∧ f.mval = .noRow) ∨ (e = .panic ∧ ∃ k s, f.mval = .json k (some s) ∧ s.length < saltLen) ∨ e = .input) := by
+  refine ⟨by simpa using Lemmas.key_failure true A utf8dec P fault a f kdf e hk hm hu hf, ?_⟩
+  exact Lemmas.fetchIndyKey_error A P kdf a.walletKey f.mval e hf
+
+/-- "A wrong key leaves the wallet intact", for the variant `g`: true with the single transaction, FALSE without (D41). -/
+def WrongKeyLeavesWalletIntactBy (g : Bool) : Prop :=
+  ∀ (A : Aead) (utf8dec : Bytes → Option String) (P : KeyPrims) (a : Args) (f : File) (kdf : Kdf) (e : Err),
+    Kdf.parse a.kdf = some kdf → f.hasMeta = true → f.upgraded = false →
+    fetchIndyKey A P kdf a.walletKey f.mval = .error e → (migrateFile g A utf8dec P none a f).1 = f
+
+theorem wrong_key_leaves_wallet_intact_single_transaction : WrongKeyLeavesWalletIntactBy true := by
+  intro A u P a f kdf e hk hm hu hf
+  rw [(key_failure_refused_wallet_intact A u P none a f kdf e hk hm hu hf).1]
+
+/-- what the code did before the repair (`g = false`): the error is the same, the file now has the (empty) Askar tables … -/
+theorem wrong_key_current (A : Aead) (utf8dec : Bytes → Option String) (P : KeyPrims) (fault : Option Nat)
+    (a : Args) (f : File) (kdf : Kdf) (e : Err)
+    (hk : Kdf.parse a.kdf = some kdf) (hm : f.hasMeta = true) (hu : f.upgraded = false)
+    (hf : fetchIndyKey A P kdf a.walletKey f.mval = .error e) :
+    migrateFile false A utf8dec P fault a f = ({ f with upgraded := true }, .error e) := by
+  simpa using Lemmas.key_failure false A utf8dec P fault a f kdf e hk hm hu hf
+
+theorem wrong_key_leaves_wallet_intact_refuted : ¬ WrongKeyLeavesWalletIntactBy false := by
+  intro h
+  have hk : Kdf.parse "RAW" = some .raw := by decide
+  have := h toyAead (fun _ => none) ⟨fun _ => none, fun _ _ _ => [], fun _ => none⟩ ⟨"RAW", "", "w", 1⟩ {} .raw .backend hk rfl rfl rfl
+  rw [wrong_key_current _ _ _ none ⟨"RAW", "", "w", 1⟩ {} .raw .backend hk rfl rfl rfl] at this
+  cases this
+
+/-- … and **a half-migrated file is stuck**: every later run — the right key included, either variant of the code —
+    is refused (Backend: `CREATE TABLE config` fails; Input for an invalid method name) and changes nothing.  With
+    `wrong_key_current`: before the repair ONE attempt with a wrong key made the wallet unmigratable; files left in
+    that state by the old code stay stuck under the new code too. -/
+theorem half_migrated_is_stuck (g : Bool) (A : Aead) (utf8dec : Bytes → Option String) (P : KeyPrims) (fault : Option Nat)
+    (a : Args) (f : File) (hu : f.upgraded = true) :
+    migrateFile g A utf8dec P fault a f = (f, .error (if (Kdf.parse a.kdf).isSome then .backend else .input)) :=
+  Lemmas.half_migrated_refuses g A utf8dec P fault a f hu
+
+/-- Single-transaction variant: after any number of refused attempts the right key still migrates the wallet, and the
+    store holds exactly the wallet's records (the statement of `migrate_rows_exact`, now about the file). -/
+theorem wrong_then_right_key_migrates (A : Aead) (hA : A.Correct) (utf8dec : Bytes → Option String) (P : KeyPrims)
+    (bad : List Args) (a : Args) (f : File) (kdf : Kdf) (keys : Keys) (recs : List Lemmas.Rec)
+    (hbad : ∀ b ∈ bad, ∃ e, (migrateFile true A utf8dec P none b f).2 = .error e)
+    (hk : Kdf.parse a.kdf = some kdf) (hm : f.hasMeta = true) (hu : f.upgraded = false)
+    (hf : fetchIndyKey A P kdf a.walletKey f.mval = .ok keys)
+    (hU : ∀ r ∈ recs, Lemmas.RecDecodes utf8dec r)
+    (henc : Lemmas.Forall2 (Lemmas.RowEncodes A keys) f.pending recs)
+    (huniq : recs.Pairwise (fun x y => ¬(x.typ = y.typ ∧ x.name = y.name))) :
+    bad.foldl (fun f b => (migrateFile true A utf8dec P none b f).1) f = f ∧
+    ∃ f' : File, migrateFile true A utf8dec P none a f = (f', .ok ()) ∧ f'.isAskar ∧
+      abs ⟨1, a.pkey⟩ f'.db = recs.map Lemmas.Rec.toEntry ∧
+      (∀ it ∈ f'.db.items, it.key = a.pkey ∧ it.expiry = none) ∧
+      f'.db.profiles = [⟨1, a.walletName, a.pkey⟩] := by
+  constructor
+  · induction bad with
+    | nil => rfl
+    | cons b rest ih =>
+      obtain ⟨e, he⟩ := hbad b (by simp)
+      have : (migrateFile true A utf8dec P none b f).1 = f :=
+        migrate_all_or_nothing A utf8dec P none b f _ e (Prod.ext rfl he)
+      simp only [List.foldl_cons, this]
+      exact ih (fun b' hb' => hbad b' (by simp [hb']))
+  · obtain ⟨f', h1, h2, _, h4, h5, h6, _⟩ := Lemmas.migrate_file_exact true A hA utf8dec P a f kdf keys recs hk hm hu hf hU henc huniq
+    exact ⟨f', h1, h2, h4, h5, h6⟩
+
+/-- **migrate_idempotence_or_refusal**: what the code does on a second run, exactly — it is a REFUSAL, not a no-op
+    success: after a successful migration every further `connect`+`migrate` on the file, with any arguments (right or
+    wrong key, any method), either variant, fails with Backend ("Database is already migrated"; Input if the method name
+    is invalid — `connect` fails before the file is opened) and leaves the store unchanged. -/
+theorem migrate_idempotence_or_refusal (g : Bool) (A : Aead) (utf8dec : Bytes → Option String) (P : KeyPrims)
+    (fault : Option Nat) (a : Args) (f f' : File) (h : migrateFile g A utf8dec P fault a f = (f', .ok ())) :
+    ∀ (g' : Bool) (A' : Aead) (utf8dec' : Bytes → Option String) (P' : KeyPrims) (fault' : Option Nat) (a' : Args),
+      migrateFile g' A' utf8dec' P' fault' a' f' =
+        (f', .error (if (Kdf.parse a'.kdf).isSome then .backend else .input)) := by
+  intro g' A' u' P' fault' a'
+  have := (migrate_success_complete g A utf8dec P fault a f f' h).2.2.1
+  exact Lemmas.migrated_refuses g' A' u' P' fault' a' f' this.1
+
+/-- The same refusal for any file without a `metadata` table — an Askar store that never was a wallet, an empty
+    database: nothing is written. -/
+theorem not_a_wallet_refused (g : Bool) (A : Aead) (utf8dec : Bytes → Option String) (P : KeyPrims) (fault : Option Nat)
+    (a : Args) (f : File) (hm : f.hasMeta = false) :
+    migrateFile g A utf8dec P fault a f = (f, .error (if (Kdf.parse a.kdf).isSome then .backend else .input)) :=
+  Lemmas.migrated_refuses g A utf8dec P fault a f hm
+
+/-- The complete run on the file (either variant): the statement of `migrate_rows_exact` with the key path
+    (`fetch_indy_key`) and the schema swap spelled out. -/
+theorem migrate_file_exact (g : Bool) (A : Aead) (hA : A.Correct) (utf8dec : Bytes → Option String) (P : KeyPrims)
+    (a : Args) (f : File) (kdf : Kdf) (keys : Keys) (recs : List Lemmas.Rec)
+    (hk : Kdf.parse a.kdf = some kdf) (hm : f.hasMeta = true) (hu : f.upgraded = false)
+    (hf : fetchIndyKey A P kdf a.walletKey f.mval = .ok keys)
+    (hU : ∀ r ∈ recs, Lemmas.RecDecodes utf8dec r)
+    (henc : Lemmas.Forall2 (Lemmas.RowEncodes A keys) f.pending recs)
+    (huniq : recs.Pairwise (fun x y => ¬(x.typ = y.typ ∧ x.name = y.name))) :
+    ∃ f' : File, migrateFile g A utf8dec P none a f = (f', .ok ()) ∧ f'.isAskar ∧
+      f'.config.map (·.1) = ["default_profile", "key", "version"] ∧
+      abs ⟨1, a.pkey⟩ f'.db = recs.map Lemmas.Rec.toEntry ∧
+      (∀ it ∈ f'.db.items, it.key = a.pkey ∧ it.expiry = none) ∧
+      f'.db.profiles = [⟨1, a.walletName, a.pkey⟩] ∧
+      resolve (f'.store a.walletName a.pkey).db (f'.store a.walletName a.pkey).h a.walletName =
+        .ok (⟨1, a.pkey⟩, (f'.store a.walletName a.pkey).h) :=
+  Lemmas.migrate_file_exact g A hA utf8dec P a f kdf keys recs hk hm hu hf hU henc huniq
+
+/-- Observation outside the property's domain (a damaged wallet), a fact about the model, which follows the code:
+    `s[..16]` on `master_key_salt` — `fetch_indy_key` panics exactly when the stored salt is shorter than 16 bytes, for
+    every method (a RAW wallet never uses the salt), key and key record.  (With the single transaction the panic, too,
+    leaves the wallet as it was: `key_failure_refused_wallet_intact`.) -/
+theorem short_salt_panics_iff (A : Aead) (P : KeyPrims) (kdf : Kdf) (walletKey : String) (m : Meta) :
+    fetchIndyKey A P kdf walletKey m = .error .panic ↔ ∃ k s, m = .json k (some s) ∧ s.length < saltLen :=
+  Lemmas.fetchIndyKey_panics_iff A P kdf walletKey m
+
+/-- Observation outside the property's domain (a damaged wallet), a fact about the model: a cell cut below nonce + tag
+    never decrypts: below 12 bytes `split_at` panics, from 12 to 27 bytes the error is
+    Input ("invalid size"), never a success — for an AEAD that refuses inputs shorter than its tag. -/
+theorem short_cell_classified (A : Aead) (key v : Bytes) (hA : ∀ k n c, c.length < tagLen → A.dec k n c = none)
+    (hv : v.length < nonceLen + tagLen) :
+    decryptMerged A key v = .error (if v.length < nonceLen then .panic else .input) := by
+  unfold decryptMerged
+  by_cases h : v.length < nonceLen
+  · simp [h]
+  · have hd : (v.drop nonceLen).length < tagLen := by simp only [List.length_drop]; omega
+    simp only [h, if_false, hA _ _ _ hd, hv, if_true]
 
 end Askar.Indy
 
@@ -326,5 +590,57 @@ example : ∃ (w : Wallet) (keys : Keys) (recs : List Rec) (dec : Bytes → Opti
     · rw [hu]; exact hs _ _
     · exact .cons ⟨by simp only [hu]; exact hs _ _, by simp only [if_true, hu]; exact hs _ _⟩ .nil
     · exact .cons ⟨by simp only [hu]; exact hs _ _, by simp [hu]⟩ .nil
+
+/-! #### non-vacuity of the failure theorems -/
+
+/-- the driver's AEAD (lengths of ChaCha20-Poly1305) is correct, and refuses inputs shorter than its tag (the
+    hypothesis of `short_cell_classified`) -/
+example : macAead.Correct := macAead_correct
+example : ∀ k n c, c.length < tagLen → macAead.dec k n c = none := by
+  intro k n c h; simp [macAead, h]
+
+/-- toy key primitives: the raw key "k" denotes the master key [1], every other string none; one key record -/
+def exPrims : KeyPrims :=
+  ⟨fun s => if s = "k" then some [1] else none, fun _ _ _ => [2], fun b => if b = [7] then some ⟨[1], [2], [3], [4], [5]⟩ else none⟩
+
+/-- a RAW wallet without records whose key record is sealed under [1] -/
+def exWallet : File := { mval := .json (List.replicate 12 0 ++ toyAead.enc [1] (List.replicate 12 0) [7]) none }
+
+theorem exWallet_key : fetchIndyKey toyAead exPrims .raw "k" exWallet.mval = .ok ⟨[1], [2], [3], [4], [5]⟩ := by
+  have h0 : ("k" = "") = False := by decide
+  simp [fetchIndyKey, exWallet, masterKey, exPrims, nonceLen, toyAead, h0]
+
+/-- the right key migrates it (hypothesis of `migrate_idempotence_or_refusal` and of `migrate_success_complete`) … -/
+example : ∃ f', migrateFile false toyAead (fun _ => none) exPrims none ⟨"RAW", "k", "w", 1⟩ exWallet = (f', .ok ()) :=
+  ⟨_, Lemmas.migrate_complete false toyAead _ exPrims none ⟨"RAW", "k", "w", 1⟩ exWallet .raw _ [] _ (by decide) rfl rfl exWallet_key rfl⟩
+
+/-- … a master key that is not the wallet's meets the hypotheses of `wrong_key_refused_wallet_intact` (key "j" denotes
+    the master key [9] under these primitives) -/
+example : migrateFile true toyAead (fun _ => none)
+    ⟨fun s => if s = "j" then some [9] else none, fun _ _ _ => [2], fun _ => none⟩ none ⟨"RAW", "j", "w", 1⟩ exWallet =
+    (exWallet, .error .input) := by
+  have h0 : ("j" = "") = False := by decide
+  apply wrong_key_refused_wallet_intact toyAead _ _ none ⟨"RAW", "j", "w", 1⟩ exWallet .raw _ none [9] (by decide) rfl rfl rfl
+  · intro s hs; cases hs
+  · simp [masterKey, h0]
+  · simp [toyAead, nonceLen, exWallet]
+
+/-- … and the failing run of `migrate_failure_partial` / `wrong_key_current` exists on the current variant: key "x" is
+    no raw key → Input, the file is left half migrated, and (`half_migrated_is_stuck`) the right key is refused too -/
+example : migrateFile false toyAead (fun _ => none) exPrims none ⟨"RAW", "x", "w", 1⟩ exWallet =
+      ({ exWallet with upgraded := true }, .error .input) ∧
+    migrateFile false toyAead (fun _ => none) exPrims none ⟨"RAW", "k", "w", 1⟩ { exWallet with upgraded := true } =
+      ({ exWallet with upgraded := true }, .error .backend) := by
+  have hk : Kdf.parse "RAW" = some .raw := by decide
+  have h0 : ("x" = "") = False := by decide
+  have h1 : ("x" = "k") = False := by decide
+  refine ⟨wrong_key_current toyAead _ exPrims none ⟨"RAW", "x", "w", 1⟩ exWallet .raw .input hk rfl rfl ?_, ?_⟩
+  · simp [fetchIndyKey, exWallet, masterKey, exPrims, h0, h1]
+  · have := half_migrated_is_stuck false toyAead (fun _ => none) exPrims none ⟨"RAW", "k", "w", 1⟩ { exWallet with upgraded := true } rfl
+    simpa [hk] using this
+
+/-- `short_salt_panics_iff`: a 15-byte salt on a RAW wallet -/
+example : fetchIndyKey toyAead exPrims .raw "k" (.json [] (some (List.replicate 15 0))) = .error .panic := by
+  simp [fetchIndyKey, saltLen]
 
 end Askar.Indy
